@@ -16,7 +16,11 @@ VARIABLES
   \* @type: Bool;
   aNone,
   \* @type: Bool;
-  bNone
+  bNone,
+  \* @type: Int;
+  dn,
+  \* @type: Int;
+  dk
 Min2(x, y) == IF x < y THEN x ELSE y
 Max2(x, y) == IF x > y THEN x ELSE y
 \* Python slice normalisation on a sequence of m items; isNone selects the default
@@ -32,8 +36,17 @@ RLo == Lo(n * bps, Onset, FALSE)
 RHi == Hi(n * bps, Onset, FALSE, Offset, bNone)
 SLo == Lo(n, a, aNone)
 SHi == Hi(n, a, aNone, b, bNone)
-Init == n \in Int /\ bps \in Int /\ a \in Int /\ b \in Int /\ aNone \in BOOLEAN /\ bNone \in BOOLEAN /\ n >= 0 /\ bps >= 1
-Next == UNCHANGED <<n, bps, a, b, aNone, bNone>>
+Init == /\ n \in Int /\ bps \in Int /\ a \in Int /\ b \in Int /\ aNone \in BOOLEAN /\ bNone \in BOOLEAN /\ n >= 0 /\ bps >= 1
+        /\ dn \in Int /\ dk \in Int /\ dn >= 1 /\ dk >= 1
+Next == UNCHANGED <<n, bps, a, b, aNone, bNone, dn, dk>>
+\* C17, division of a region of dn >= 1 samples by dk >= 1: piece i of the Min2(dk, dn) pieces has dn div dk + 1 samples for i <= dn mod dk and
+\* dn div dk otherwise (Region!DivLens); for ALL dn, dk: the longer pieces are among the pieces, the lengths sum to dn, no piece is empty
+DQ == dn \div dk
+DR == dn % dk
+DM == Min2(dk, dn)
+DivLemma == /\ DR <= DM /\ DR * (DQ + 1) + (DM - DR) * DQ = dn /\ (DQ >= 1 \/ DR = DM)
+\* non-vacuity: FALSE (pieces are not always equally long)
+AllEqual == DR = 0
 SliceAgree == /\ RLo % bps = 0 /\ RHi % bps = 0
               /\ (RHi - RLo) = (SHi - SLo) * bps
               /\ (SHi > SLo => RLo = SLo * bps)
